@@ -335,6 +335,7 @@ def api_cases(draw):
         "fill": draw(st.sampled_from(FILLS)),
         "api": draw(st.sampled_from(["render", "iter", "iter_set_padding", "iter_resized"])),
         # iter_resized: the iterator's own render size (set with set_render_size) differs from the renderable's
+        "twin": draw(st.booleans()),
         "W0": draw(st.integers(1, 10)), "H0": draw(st.integers(1, 6)), "size_first": draw(st.booleans()),
         "frames": draw(st.integers(2, 4)), "advance": draw(st.integers(0, 5)),
     }
@@ -388,7 +389,13 @@ def check_api(c, rec):
                     it.set_padding(padding)
                     it.set_render_size(_Size(W, Hh))
             else:
-                it = RenderIterator(r, None, P.ExactPadding(1, 0, 0, 1), loops=2, cache=c["advance"] % 2 == 0)
+                first = P.ExactPadding(1, 0, 0, 1)
+                if c.get("twin"):
+                    # a padding of the same padded size but another layout (alignment / margins swapped, other fill)
+                    tw = (["aligned", spec[1], spec[2], (spec[3] + 1) % 3, (spec[4] + 2) % 3] if spec[0] == "aligned"
+                          else ["exact", spec[3], spec[4], spec[1], spec[2]])
+                    first = build_padding(tw, "+" if fill != "+" else " ")
+                it = RenderIterator(r, None, first, loops=2, cache=c["advance"] % 2 == 0)
                 next(it)
                 it.set_padding(padding)
             frame = None
